@@ -13,6 +13,7 @@ import (
 	"sort"
 	"sync"
 	"time"
+	"verif/harness/busy"
 
 	"ergo.services/ergo/gen"
 	"ergo.services/ergo/node"
@@ -73,6 +74,7 @@ func StartNode(name string) (gen.Node, error) {
 	opt.Log.DefaultLogger.Disable = true
 	opt.Log.Level = gen.LogLevelDisabled
 	opt.Network.Mode = gen.NetworkModeDisabled
+	busy.Install()
 	return node.Start(gen.Atom(name), opt, gen.Version{})
 }
 
@@ -128,6 +130,9 @@ func (r *Runner) Run(h *History) ([]Line, error) {
 			for _, p := range pids {
 				if st, err := r.Node.ProcessState(p); err == nil && st != gen.ProcessStateSleep {
 					ok = false
+				}
+				if busy.Any(p) {
+					ok = false // running or terminating
 				}
 			}
 			n := len(w.Snapshot())
